@@ -45,12 +45,14 @@ class DumpPath:
         self.items = []      # ('bytes', b) | ('pack', fmt, [arg exprs]) | ('imm', key expr) | ('raw', expr)
         #                      | ('child', expr) | ('children', iter expr)
         self.nodes = []      # ast nodes of the emitting statements (for locations)
+        self.done = False    # a `return` was executed: later statements do not run on this path
 
     def clone(self):
         p = DumpPath()
         p.guards = list(self.guards)
         p.items = list(self.items)
         p.nodes = list(self.nodes)
+        p.done = self.done
         return p
 
     def layout(self):
@@ -78,7 +80,10 @@ class DumpExec:
         for st in stmts:
             new = []
             for (p, env) in states:
-                new.extend(self.stmt(st, p, env, func, depth))
+                if p.done:
+                    new.append((p, env))
+                else:
+                    new.extend(self.stmt(st, p, env, func, depth))
             states = new
         return states
 
@@ -125,6 +130,7 @@ class DumpExec:
                     out = []
                     for ip in inner:
                         q = p.clone()
+                        q.done = False
                         q.guards += ip.guards
                         q.items += ip.items
                         q.nodes += [st] + ip.nodes
@@ -147,7 +153,9 @@ class DumpExec:
             p.items.append(("raise", st.exc))
             return [(p, env)]
         if isinstance(st, ast.Return) and st.value is None:
-            return []
+            p = p.clone()
+            p.done = True
+            return [(p, env)]
         raise AnalysisError("unsupported statement in dumper %s: %s" % (func.qual, A.norm(st)[:60]))
 
     def atoms(self, e):
@@ -204,9 +212,13 @@ def eval_guard(ctx, g, valuation):
         return {ast.Eq: lv == rv, ast.NotEq: lv != rv, ast.Lt: lv < rv, ast.LtE: lv <= rv,
                 ast.Gt: lv > rv, ast.GtE: lv >= rv}.get(type(op))
     if isinstance(g, ast.Name):
-        if valuation.get("truth") is None:
-            raise AnalysisError("guard `%s` needs a truth valuation" % A.src(g))
-        return valuation["truth"]
+        if valuation.get("truth") is not None:
+            return valuation["truth"]
+        if valuation.get("len") is not None:
+            return valuation["len"] > 0        # str/bytes/tuple: empty <=> falsy (an empty str encodes to 0 bytes)
+        if "value" in valuation:
+            return bool(valuation["value"])
+        raise AnalysisError("guard `%s` needs a truth valuation" % A.src(g))
     raise AnalysisError("unsupported guard `%s`" % A.src(g))
 
 
@@ -296,6 +308,10 @@ class LoadExec:
     def term(self, e, env):
         if isinstance(e, ast.Constant):
             return ("const", e.value)
+        if isinstance(e, ast.Attribute):
+            v = self.ctx.try_fold(e, self.mod)
+            if v is not None:
+                return ("const", v)
         if isinstance(e, ast.Name):
             if e.id in env:
                 return env[e.id]
